@@ -882,6 +882,21 @@ let run_conform payload =
        L [A "request"; b (check_request sch acts' (uid_of_sx p) (uid_of_sx a) (uid_of_sx r) ctx)]]
   | _ -> failwith "conform payload"
 
+(* ---- ejsonschema: EntityMap.UnmarshalJSONWithSchema = decode (Impl/EntityJson.v), coerce (Impl/Coerce.v), validate (Impl/Conform.v) ---- *)
+let run_ejsonschema payload =
+  match payload with
+  | [_; L [A "info"; L (A "entities" :: es); L (A "enums" :: ens); L (A "actions" :: acts)]; L (A "enumvals" :: evs); t] ->
+    let sch = tschema_of_info es ens acts in
+    let enums = List.map (function L (A n :: ids) -> (str_of_atom n, List.map (fun x -> str_of_atom (atom x)) ids) | _ -> failwith "enumvals") evs in
+    (match dec_entity_map (json_of_sx t) with
+     | DOk m ->
+       let m' = List.map (coerce_entity sch) m in
+       if check_entities sch enums m' then L [A "ok"; sx_of_store m'] else L [A "err"]
+     | DErr -> L [A "err"]
+     | DUnk -> L [A "unmodelled"]
+     | DFuel -> L [A "out-of-fuel"])
+  | _ -> failwith "ejsonschema payload"
+
 (* ---- coerce: schema-guided coercion of one value along one declared type (Impl/Coerce.v) ---- *)
 let run_coerce payload =
   match payload with
@@ -919,6 +934,7 @@ let run_case kind payload =
   match kind with
   | "vverdict" -> run_vverdict payload
   | "conform" -> run_conform payload
+  | "ejsonschema" -> run_ejsonschema payload
   | "coerce" -> run_coerce payload
   | "coercetags" -> run_coercetags payload
   | "rjsonenc" -> run_rjsonenc payload
